@@ -387,7 +387,8 @@ def run(ck):
     seen = set()
     for i in bad:
         c = coq_meta[i]
-        key = f"{c['cls']}/model-disagrees/{c['tag'].split(' ')[0]}"
+        t0 = c["tag"].split(" ")[0]
+        key = f"{c['cls']}/model-disagrees/{'roles' if t0.startswith('roles=') else t0}"
         if key in seen or len(seen) > 8:
             continue
         seen.add(key)
